@@ -3,7 +3,7 @@ import io
 
 from harness import common, nsoracles, reader, sysimg, syslevel, sysprops, sysrun
 from harness.props.codecleaf import ISOLINUX
-from harness.props import hybridleaf, hybridhistleaf
+from harness.props import hybridleaf, hybridhistleaf, hybridparseleaf
 
 MODULE = 'C12'
 
@@ -103,6 +103,7 @@ def run(ctx):
     leaf_mbr(ctx)
     hybridleaf.leaf_correspondence(ctx)
     hybridhistleaf.correspondence(ctx)
+    hybridparseleaf.correspondence(ctx)
     # requests that cannot be mastered must be refused at the call, not fail in write_fp
     import pycdlib
     for nefi in (0, 1):
